@@ -81,6 +81,24 @@ def _int_method(ex, st, c, ty, meth, args, fn):
         raise EngineError('symbolic pow')
     if meth in ('min', 'max'):
         return z3.If(a <= b, a, b) if meth == 'min' else z3.If(a >= b, a, b)
+    if meth == 'clamp' and len(args) == 3:
+        return z3.If(a < args[1], args[1], z3.If(a > args[2], args[2], a))
+    if meth in ('checked_div', 'checked_rem', 'checked_div_euclid', 'checked_rem_euclid'):
+        # truncating division of the machine type (euclidean variants coincide for non-negative operands: only those are modelled)
+        if meth.endswith('euclid') and lo < 0:
+            raise EngineError('signed euclidean checked division')
+        q = z3.If(z3.And(a >= 0, b > 0), a / b, z3.If(z3.And(a < 0, b > 0), -((-a) / b), z3.If(z3.And(a >= 0, b < 0), -(a / (-b)), (-a) / (-b))))
+        r = a - q * b
+        val = q if 'div' in meth else r
+        ok = z3.And(b != 0, z3.Not(z3.And(a == lo, b == -1))) if lo < 0 else (b != 0)
+        return Enum(z3.If(ok, z3.IntVal(1), z3.IntVal(0)), {'Some': Struct([val]), 'None': UNIT})
+    if meth in ('checked_neg', 'checked_abs'):
+        val = -a if meth == 'checked_neg' else z3.If(a >= 0, a, -a)
+        ok = z3.And(val >= lo, val <= hi)
+        return Enum(z3.If(ok, z3.IntVal(1), z3.IntVal(0)), {'Some': Struct([val]), 'None': UNIT})
+    if meth in ('saturating_abs', 'saturating_neg'):
+        val = -a if meth == 'saturating_neg' else z3.If(a >= 0, a, -a)
+        return z3.If(val > hi, z3.IntVal(hi), z3.If(val < lo, z3.IntVal(lo), val))
     if meth == 'rem_euclid':
         return a % b
     if meth == 'div_euclid':
@@ -337,6 +355,41 @@ def _builtin(ex, st, c, callee, args, fn):
             if 'Some' in v.p:
                 pl['Ok'] = v.p['Some']
             return Enum(1 - d, pl)
+        if k == 'ok_or_else' and len(args) == 2:
+            r = call_closure(ex, st.fork(), callee, args[1], [])
+            if r is not None:
+                pl = {'Err': Struct([r[1]])}
+                if 'Some' in v.p:
+                    pl['Ok'] = v.p['Some']
+                return Enum(1 - d, pl)
+        if k == 'and_then' and len(args) == 2 and 'Some' in v.p:
+            r = call_closure(ex, st.fork(), callee, args[1], [v.p['Some'].f[0]])
+            if r is not None and isinstance(r[1], Enum):
+                return Enum(z3.If(d == 1, r[1].disc(), z3.IntVal(0)), dict(r[1].p, **{'None': UNIT}))
+        if k in ('or', 'xor') and len(args) == 2 and isinstance(_val(ex, st, args[1]), Enum) and k == 'or':
+            return ite(d == 1, v, _val(ex, st, args[1]))
+        if k == 'or_else' and len(args) == 2:
+            r = call_closure(ex, st.fork(), callee, args[1], [])
+            if r is not None and isinstance(r[1], Enum):
+                return ite(d == 1, v, r[1])
+        if k == 'is_some_and' and len(args) == 2 and 'Some' in v.p:
+            r = call_closure(ex, st.fork(), callee, args[1], [v.p['Some'].f[0]])
+            if r is not None and isinstance(r[1], z3.ExprRef) and z3.is_bool(r[1]):
+                return z3.And(d == 1, r[1])
+        if k in ('copied', 'cloned') and len(args) == 1:
+            if 'Some' in v.p:
+                inner = v.p['Some'].f[0]
+                return Enum(v.d, {'Some': Struct([_val(ex, st, inner)]), 'None': UNIT})
+            return v
+        if k in ('take', 'replace') and isinstance(args[0], Ref):
+            r0 = args[0]
+            newv = NONE if k == 'take' else Enum(1, {'Some': Struct([args[1]]), 'None': UNIT})
+            ex.store(st, r0.frame, (r0.local, list(r0.path)), newv)
+            return v
+        if k == 'insert' and isinstance(args[0], Ref) and len(args) == 2:
+            r0 = args[0]
+            ex.store(st, r0.frame, (r0.local, list(r0.path)), Enum(1, {'Some': Struct([args[1]]), 'None': UNIT}))
+            return Ref(r0.frame, r0.local, tuple(r0.path) + (('as', 'Some'), 0))
     m = re.match(r'^(?:std::result::|core::result::)?Result::(\w+)$', c)
     if m:
         k = m.group(1); v = _val(ex, st, args[0])
@@ -379,10 +432,64 @@ def _builtin(ex, st, c, callee, args, fn):
             r = call_closure(ex, st.fork(), callee, args[1], [v.p['Err'].f[0]])
             if r is not None:
                 return ite(d == 0, v.p['Ok'].f[0], r[1]) if 'Ok' in v.p else r[1]
+        if k == 'and_then' and len(args) == 2 and 'Ok' in v.p:
+            r = call_closure(ex, st.fork(), callee, args[1], [v.p['Ok'].f[0]])
+            if r is not None and isinstance(r[1], Enum):
+                pl = dict(r[1].p)
+                if 'Err' in v.p and 'Err' not in pl:
+                    pl['Err'] = v.p['Err']
+                elif 'Err' in v.p and 'Err' in pl:
+                    pl['Err'] = ite(d == 0, pl['Err'], v.p['Err'])
+                return Enum(z3.If(d == 0, r[1].disc(), z3.IntVal(1)), pl)
+        if k in ('is_ok_and', 'is_err_and') and len(args) == 2:
+            var = 'Ok' if k == 'is_ok_and' else 'Err'
+            if var in v.p:
+                r = call_closure(ex, st.fork(), callee, args[1], [v.p[var].f[0]])
+                if r is not None and isinstance(r[1], z3.ExprRef) and z3.is_bool(r[1]):
+                    return z3.And(d == (0 if var == 'Ok' else 1), r[1])
+        if k in ('unwrap_err', 'expect_err') and 'Err' in v.p:
+            ex.obligations.append(Obligation(z3.And(st.pcond(), d == 0), 'Result::%s on Ok' % k, fn.name))
+            st.pc.append(d == 1)
+            return v.p['Err'].f[0]
         if k == 'unwrap_or_default' and 'Ok' in v.p:
             okv = v.p['Ok'].f[0]
             if isinstance(okv, z3.ExprRef) and z3.is_int(okv):
                 return ite(d == 0, okv, z3.IntVal(0))
+    # ---------------------------------------------------------------- integer ranges (for loops): Struct([start, end])
+    if re.match(r'^<(?:std::ops::|core::ops::)?Range<\w+> as IntoIterator>::into_iter$', c):
+        return args[0]
+    if re.match(r'^<(?:std::ops::|core::ops::)?Range<\w+> as Iterator>::next$', c) and isinstance(args[0], Ref):
+        r0 = args[0]
+        rng = ex.deref(st, r0)
+        if isinstance(rng, Struct) and len(rng.f) == 2 and all(isinstance(x, z3.ExprRef) for x in rng.f):
+            a_, b_ = rng.f
+            s_some = st.fork(); s_some.pc.append(a_ < b_)
+            ex.store(s_some, r0.frame, (r0.local, list(r0.path)), Struct([a_ + 1, b_]))
+            st.pc.append(z3.Not(a_ < b_))
+            return [(st, NONE), (s_some, Enum(1, {'Some': Struct([a_]), 'None': UNIT}))]
+    # ---------------------------------------------------------------- std::time::Duration as exact integer nanoseconds (Struct([ns]))
+    m = re.search(r'(^|::)Duration::(new|from_secs|from_millis|from_micros|from_nanos|as_secs_f32|as_secs_f64|as_secs|as_nanos|as_millis|as_micros|subsec_nanos)$', c)
+    if m:
+        k = m.group(2)
+        NSv = 10 ** 9
+        if k == 'new' and len(args) == 2:
+            return Struct([args[0] * NSv + args[1]])
+        if k in ('from_secs', 'from_millis', 'from_micros', 'from_nanos') and len(args) == 1 and isinstance(args[0], z3.ExprRef):
+            return Struct([args[0] * {'from_secs': NSv, 'from_millis': 10 ** 6, 'from_micros': 1000, 'from_nanos': 1}[k]])
+        a0 = _val(ex, st, args[0])
+        if isinstance(a0, Struct) and len(a0.f) == 1 and isinstance(a0.f[0], z3.ExprRef):
+            ns = a0.f[0]
+            if k == 'as_secs_f32':
+                # (secs as f32) + (nanos as f32) / 1e9: the exact quotient ns / 1e9 within four binary32 roundings
+                return FMono([ns], NSv, 4, 24)
+            if k == 'as_secs_f64':
+                return FMono([ns], NSv, 3, 53)
+            if k == 'as_secs':
+                return ns / NSv
+            if k == 'subsec_nanos':
+                return ns % NSv
+            if k in ('as_nanos', 'as_millis', 'as_micros'):
+                return ns / {'as_nanos': 1, 'as_millis': 10 ** 6, 'as_micros': 1000}[k]
     # ---------------------------------------------------------------- memory
     if re.search(r'MaybeUninit::uninit$', c):
         return Struct([None])
@@ -401,6 +508,23 @@ def _builtin(ex, st, c, callee, args, fn):
             return z3.IntVal(ex.size_of(m.group(1)))
     if re.search(r'(^|::)mem::(forget|drop)$', c) or c in ('drop', 'std::mem::drop', 'forget'):
         return UNIT
+    m = re.search(r'(^|::)mem::(replace|swap|take)$', c) or re.fullmatch(r'(replace|swap)', c)
+    if m and args and isinstance(args[0], Ref):
+        k = m.group(m.lastindex)
+        r0 = args[0]
+        old_v = ex.deref(st, r0)
+        if k == 'replace' and len(args) == 2:
+            ex.store(st, r0.frame, (r0.local, list(r0.path)), args[1])
+            return old_v
+        if k == 'swap' and len(args) == 2 and isinstance(args[1], Ref):
+            r1 = args[1]
+            other = ex.deref(st, r1)
+            ex.store(st, r0.frame, (r0.local, list(r0.path)), other)
+            ex.store(st, r1.frame, (r1.local, list(r1.path)), old_v)
+            return UNIT
+        if k == 'take' and isinstance(old_v, z3.ExprRef):
+            ex.store(st, r0.frame, (r0.local, list(r0.path)), z3.BoolVal(False) if z3.is_bool(old_v) else z3.IntVal(0))
+            return old_v
     if re.search(r'(^|::)Box::new$', c) or re.search(r'(^|::)Box::<.*>::new$', c):
         return args[0]
     if re.search(r'(^|::)hint::(black_box|must_use)$', c):
